@@ -43,6 +43,8 @@ pub mod verif {
         pub(crate) static TASKS_SPAWNED: Cell<usize> = const { Cell::new(0) };
         pub(crate) static SKIP_CHOICES: Cell<usize> = const { Cell::new(0) };
         pub(crate) static POOLS_BUILT: Cell<usize> = const { Cell::new(0) };
+        /// jobs handed to the global pool that have not begun to run yet
+        pub(crate) static GLOBAL_PENDING: Cell<usize> = const { Cell::new(0) };
     }
 
     /// Switch this OS thread between controlled (inside a shuttle execution)
@@ -69,6 +71,7 @@ pub mod verif {
         TASKS_SPAWNED.with(|c| c.set(0));
         SKIP_CHOICES.with(|c| c.set(0));
         POOLS_BUILT.with(|c| c.set(0));
+        GLOBAL_PENDING.with(|c| c.set(0));
     }
 
     /// Panics swallowed in detached `spawn` jobs (real rayon would abort).
@@ -125,6 +128,8 @@ struct PoolInner {
     /// `use_current_thread`: the task that built the pool is one of its `cap` threads, but it only runs pool
     /// work while it is inside `install` (in place) or waiting in a join there (when it would steal)
     owner: Option<usize>,
+    /// jobs handed to this pool that have not begun to run yet (no thread has picked them up)
+    pending: std::sync::atomic::AtomicUsize,
 }
 
 fn current_task_id() -> Option<usize> {
@@ -195,6 +200,25 @@ impl Ctx {
     fn release(&self) {
         if let Ctx::Pool(p, _) = self {
             p.release()
+        }
+    }
+    /// a job was queued for this pool / a queued job has been picked up by a thread
+    fn queued(&self, d: isize) {
+        match self {
+            Ctx::Global => verif::GLOBAL_PENDING.with(|c| c.set((c.get() as isize + d).max(0) as usize)),
+            Ctx::Pool(p, _) => {
+                if d > 0 {
+                    p.pending.fetch_add(1, Ordering::SeqCst);
+                } else {
+                    let _ = p.pending.fetch_update(Ordering::SeqCst, Ordering::SeqCst, |v| Some(v.saturating_sub(1)));
+                }
+            }
+        }
+    }
+    fn pending(&self) -> usize {
+        match self {
+            Ctx::Global => verif::GLOBAL_PENDING.with(|c| c.get()),
+            Ctx::Pool(p, _) => p.pending.load(Ordering::SeqCst),
         }
     }
     fn with_index(&self, i: usize) -> Ctx {
@@ -276,9 +300,11 @@ where
             let ctx = ctx.with_index(i);
             let panicked = &panicked;
             count_task();
+            ctx.queued(1);
             let body = move || {
                 set_ctx(Some(ctx.clone()));
                 ctx.acquire();
+                ctx.queued(-1);
                 if !(panicked.load(Ordering::SeqCst) && env_choice()) {
                     if let Err(p) = catch_unwind(AssertUnwindSafe(|| f(it))) {
                         panicked.store(true, Ordering::SeqCst);
@@ -324,9 +350,11 @@ where
         let ctxb = ctx.with_index(1);
         count_task();
         let rbs = &mut rb;
+        ctxb.queued(1);
         let body = move || {
             set_ctx(Some(ctxb.clone()));
             ctxb.acquire();
+            ctxb.queued(-1);
             *rbs = Some(catch_unwind(AssertUnwindSafe(b)));
             ctxb.release();
             set_ctx(None);
@@ -438,9 +466,11 @@ impl ThreadPool {
         }
         let ctx = Ctx::Pool(self.inner.clone(), 0);
         count_task();
+        ctx.queued(1);
         let h = shuttle::thread::spawn(move || {
             set_ctx(Some(ctx.clone()));
             ctx.acquire();
+            ctx.queued(-1);
             if catch_unwind(AssertUnwindSafe(op)).is_err() {
                 verif::SPAWN_PANICS.with(|c| c.set(c.get() + 1));
             }
@@ -477,6 +507,19 @@ impl ThreadPool {
 
     pub fn current_num_threads(&self) -> usize {
         self.inner.cap.unwrap_or(16)
+    }
+
+    /// Real rayon: whether the calling worker of THIS pool has jobs in its local queue.  The stand-in keeps one
+    /// queue per pool: `Some(true)` while any job handed to the pool has not been picked up yet (which, for the
+    /// calling worker's own forks, is the situation real rayon reports) - `None` outside the pool.
+    pub fn current_thread_has_pending_tasks(&self) -> Option<bool> {
+        if !verif::controlled() {
+            return None;
+        }
+        match cur_ctx() {
+            Some(c @ Ctx::Pool(..)) if self.same_pool(&Some(c.clone())) => Some(c.pending() > 0),
+            _ => None,
+        }
     }
 }
 
@@ -549,7 +592,7 @@ impl ThreadPoolBuilder {
             None
         };
         Ok(ThreadPool {
-            inner: Arc::new(PoolInner { id, cap, slots, owner: if self.current_thread { current_task_id() } else { None } }),
+            inner: Arc::new(PoolInner { id, cap, slots, owner: if self.current_thread { current_task_id() } else { None }, pending: std::sync::atomic::AtomicUsize::new(0) }),
         })
     }
 
@@ -592,6 +635,10 @@ pub fn current_num_threads() -> usize {
         Some(Ctx::Pool(p, _)) => p.cap.unwrap_or(16),
         _ => verif::DEFAULT_THREADS.with(|c| c.get()).unwrap_or(16),
     }
+}
+
+pub fn current_thread_has_pending_tasks() -> Option<bool> {
+    cur_ctx_opt().map(|c| c.pending() > 0)
 }
 
 pub fn current_thread_index() -> Option<usize> {
